@@ -218,13 +218,17 @@ func (d *Decoder) readClassDef() (interface{}, error) {
 		return nil, newCodecError("ReadClassDef", err)
 	}
 
-	fields := make([]string, count)
+	if count < 0 {
+		return nil, newCodecError("ReadClassDef", "negative field count %d", count)
+	}
+	// the count is only declared by the input: grow the list as names are actually read
+	var fields []string
 	for i := 0; i < int(count); i++ {
 		s, err := d.readString(_tagRead)
 		if err != nil {
 			return nil, newCodecError("ReadClassDef", err)
 		}
-		fields[i] = s
+		fields = append(fields, s)
 	}
 	cls := ClassDef{clsName, fields}
 	return cls, nil
@@ -232,8 +236,14 @@ func (d *Decoder) readClassDef() (interface{}, error) {
 
 //readTagObject read tag object
 func (d *Decoder) readTagObject() (interface{}, error) {
-	i, _ := d.readInt(_tagRead)
+	i, err := d.readInt(_tagRead)
+	if err != nil {
+		return nil, newCodecError("readTagObject", err)
+	}
 	idx := int(i)
+	if idx < 0 || idx >= len(d.clsDefList) {
+		return nil, newCodecError("readTagObject", "cls def ref index %d over max %d", idx, len(d.clsDefList))
+	}
 	clsD := d.clsDefList[idx]
 	typ, ok := d.typMap[clsD.FullClassName]
 	if !ok {
@@ -268,8 +278,7 @@ func (d *Decoder) readObjectDef() (interface{}, error) {
 
 	tag, err := d.readTag()
 	if err != nil {
-		hlog.Debugf("reading tag err:%v", err)
-		return nil, nil //ignore
+		return nil, tagReadError(err)
 	}
 
 	if objectLenTag(tag) {
